@@ -80,6 +80,9 @@ class APIEndpoint(BaseView):
     job = None
     """APIJob: he job triggered by the API endpoint."""
 
+    json_fields = ()
+    """tuple: keys of the JSON payload that the endpoint validates."""
+
     def __init_subclass__(cls, **kwargs):
         """Runs some health checks on class properties."""
         super().__init_subclass__(**kwargs)
@@ -108,8 +111,12 @@ class APIEndpoint(BaseView):
         except ValueError:
             return invalid()
 
+        # Only hand validated parameters over to the job: its settings
+        # take precedence over Bert-E's own settings.
+        settings = {key: value for key, value in json.items()
+                    if key in self.json_fields}
         job = self.job(kwargs=kwargs, user=user,
-                       settings=json, bert_e=current_app.bert_e)
+                       settings=settings, bert_e=current_app.bert_e)
         current_app.bert_e.put_job(job)
 
         return Response(job.as_json(), 202, {'Content-Type': 'text/json'})
